@@ -451,6 +451,12 @@ def main(argv):
         except BuildError as e:
             print(f"setup failed at {e.stage}:\n{e.log[-8000:]}")
             return 1
+    if argv[0] == "pins":
+        import srcpins
+        rc, out = sh(["git", "-C", REPO, "log", "--format=%h", "-1"])
+        srcpins.write_pins(REPO, out.strip() if rc == 0 else "")
+        print("wrote", srcpins.PINS)
+        return 0
     pid = argv[0]
     tier = os.environ.get("VERIF_TIER", "quick")
     replay = None
